@@ -98,6 +98,7 @@ static inline int run_main(int argc, char **argv, const char *property, std::vec
         std::vector<std::string> samples; bool exhaustive = true;
         auto add_v = [&](const Violation &v) { for(auto &x : viols) if(x.sig == v.sig && x.kind == v.kind && x.family == v.family) { x.count++; return; } viols.push_back(v); };
         for(auto &F : fams) {
+            if(a.extra.count("only-family") && a.extra.at("only-family") != F.name) continue;   // development aid; registered commands never pass it
             FamStats fs; fs.name = F.name; fs.describe = F.describe; fs.count = F.count;
             double f0 = vu::now_s();
             if(vu::now_s() > deadline) { fs.complete = false; exhaustive = false; stats.push_back(fs); continue; }
